@@ -34,6 +34,7 @@ SeqOps ==
   \cup {Op("clear", "", 0)}
   \cup {[Op("extend", "", 1) EXCEPT !.v2 = 2]}
   \cup (IF KIND = "array" THEN {[Op("insert_at", "", 2) EXCEPT !.i = i] : i \in 0..2} \cup {[Op("replace", "", 1) EXCEPT !.i = i] : i \in 0..2}
+                               \cup {Op("sort_by_key_mod3", "", 0), Op("push", "", 4)}
         ELSE {})
 
 VARIABLES st, hist, ret
